@@ -437,4 +437,53 @@ MUTANTS = [
       "                /* Not enough terms grounded to verify constraint. */\n                Ok(state.with_constraint(self))",
       "                /* Not enough terms grounded to verify constraint. */\n                Ok(state)",
       {"C19": "keeps="}),
+    M("c18-f7-returns", ["C18"], "src/state/fd.rs",
+      "self.diff(other).is_none() && other.diff(self).is_none()", "self.diff(other).is_none()", {"C18": "symmetric"}),
+    M("c18-f8-returns", ["C18"], "src/state/fd.rs",
+      "        v.sort();\n        v.dedup();\n", "        v.sort();\n", {"C18": "sparse-site"}),
+    M("c18-f9-returns", ["C18"], "src/state/fd.rs",
+      "FiniteDomain::Interval(r) => r.start() == r.end(),", "FiniteDomain::Interval(r) => (r.end() - r.start()).saturating_add(1) == 1,", {"C18": ""}),
+    M("c18-diff-swapped-cmp", ["C18"], "src/state/fd.rs",
+      """                (Some(s), Some(o)) if s < o => {
+                    maybe_s = siter.next();
+                    difference.push(s);
+                }""",
+      """                (Some(s), Some(o)) if s > o => {
+                    maybe_s = siter.next();
+                    difference.push(s);
+                }""",
+      {"C18": "merge-discipline"}),
+    M("c18-intersect-strict", ["C18"], "src/state/fd.rs",
+      "if max_start <= min_end {", "if max_start < min_end {", {"C18": "interval-interval"}),
+    M("c18-take-while-inclusive", ["C18"], "src/state/fd.rs",
+      ".take_while(|u| u <= r.end())", ".take_while(|u| u < r.end())", {"C18": "sparse-interval"}),
+    M("c18-drop-before-polarity", ["C18"], "src/state/fd.rs",
+      "v.iter().copied().skip_while(|u| !predicate(u)).collect();", "v.iter().copied().skip_while(|u| predicate(u)).collect();", {"C18": "before-polarity"}),
+    M("c18-some-empty", ["C18"], "src/state/fd.rs",
+      """        if difference.is_empty() {
+            None
+        } else {
+            Some(FiniteDomain::Sparse(difference))
+        }""",
+      "        Some(FiniteDomain::Sparse(difference))", {"C18": ""}),
+    M("c18-disjoint-eq-continues", ["C18"], "src/state/fd.rs",
+      """                (Some(s), Some(o)) if s == o => {
+                    return false;
+                }""",
+      """                (Some(s), Some(o)) if s == o => {
+                    maybe_s = siter.next();
+                }""",
+      {"C18": "merge-discipline"}),
+    M("c18-next-back-wrong-end", ["C18"], "src/state/fd.rs",
+      "            FiniteDomainIter::SparseIter(v) => v.copied().next_back(),", "            FiniteDomainIter::SparseIter(v) => v.copied().next(),", {"C18": "delegation"}),
+    M("c18-unsorted-push", ["C18"], "src/state/fd.rs",
+      """                            maybe_o = oiter.next();
+                            maybe_s = siter.next();
+                            intersection.push(s);""",
+      """                            maybe_o = oiter.next();
+                            maybe_s = siter.next();
+                            intersection.insert(0, s);""",
+      {"C18": ""}),
+    M("c18-max-first", ["C18"], "src/state/fd.rs",
+      "FiniteDomain::Sparse(v) => v.last().copied().unwrap(),", "FiniteDomain::Sparse(v) => v.first().copied().unwrap(),", {"C18": "delegation"}),
 ]
